@@ -259,8 +259,10 @@ def run(ctx):
                     el = eloops[0]
                     graph = astx.root_name(el.iter.func if isinstance(el.iter, ast.Call) and txt(el.iter.func) != "list" else (el.iter.args[0].func if isinstance(el.iter, ast.Call) else el.iter))
                     # the component variable: the (re-bound) target of the enclosing loop over the components
-                    outer = [l for l in par.loops_of(el) if isinstance(l, ast.For)]
-                    cvar = txt(outer[0].target) if outer and isinstance(outer[0].target, ast.Name) else None
+                    # the component variable: what the end points are tested against (`e[0] in c`)
+                    memb = {txt(x.comparators[0]) for x in ast.walk(el) if isinstance(x, ast.Compare) and len(x.ops) == 1 and isinstance(x.ops[0], (ast.In, ast.NotIn))
+                            and isinstance(x.comparators[0], ast.Name)}
+                    cvar = memb.pop() if len(memb) == 1 else None
                     if cvar is None:
                         o.undecided("edge classification loop: enclosing component loop not recognised", ae, el)
                     else:
